@@ -18,6 +18,7 @@ from typing import Dict, List, Optional, Set, Tuple
 
 from ..absstr import AbsStr, Evaluator, alphabet_of, concat, lit, simplify
 from ..astq import assignments, calls, kwarg, names_in, stmts
+from ..callgraph import fkey
 from ..cfg import cond_atoms, flatten_conj, path_conditions
 from ..regexlang import Lang, Seg, show
 from ..report import Check
@@ -56,6 +57,11 @@ def run(chk: Check, proj: Project) -> None:
     for o in sub.obls:
         chk.obls.append(type(o)(f"{chk.pid}-S7", o.construct, o.loc, o.verdict, o.message, o.nontrivial, o.detail))
     chk.rule("S7", "default-location insertion: a kind is suppressed only by its OWN placeholder and gets its own tags (shared with C08-S6)")
+    s8_dynamic_mode(chk, proj)
+    C08.s5(chk, proj, proj.mod("dependencies"), rule="S9")
+    from . import C19
+
+    C19.s5(chk, proj, w, rule="S10")
 
 
 def check_inclusion(chk: Check, rule: str, key: str, loc: str, lang: Lang, alts: AbsStr, what: str, reader: str) -> bool:
@@ -168,6 +174,21 @@ def s1_records(chk: Check, proj: Project, ev: Evaluator) -> None:
 
 
 # ---------------------------------------------------------------------------------------------
+def s8_dynamic_mode(chk: Check, proj: Project) -> None:
+    chk.rule("S8", "the dynamic component renders its target in the SAME dependency mode: `type` and `render_dependencies` of its own input are forwarded to the inner render")
+    m, f = proj.func("components.dynamic", "DynamicComponent.on_render_before")
+    chk.analysed(fkey(m, f))
+    rc = [c for c in calls(f, "render") if isinstance(c.func, ast.Attribute) and len(c.keywords) >= 3]
+    if len(rc) != 1:
+        chk.undecided("S8", "components.dynamic:on_render_before:render-call", m.loc(f), f"{len(rc)} inner render calls")
+        return
+    for fld in ("type", "render_dependencies"):
+        v = kwarg(rc[0], fld)
+        ok = v is not None and norm(v) == f"self.input.{fld}"
+        chk.ob("S8", f"components.dynamic:on_render_before:forwards-{fld}", m.loc(rc[0]), ok, f"{fld}=self.input.{fld}" if ok else
+               f"the inner render does not receive `{fld}` from the dynamic component's input (got `{short(v) if v is not None else 'nothing: the default applies'}`): a dynamic component rendered as a fragment renders its target as a document, the target's markers are consumed there and the fragment declares nothing to the client-side loader")
+
+
 def s2_consumed(chk: Check, proj: Project, w) -> None:
     chk.rule("S2", "in render_dependencies the marker substitution (-> b'') and the placeholder substitution dominate every normal return, for both render types")
     m, f = proj.func("dependencies", "render_dependencies")
